@@ -4,7 +4,15 @@ stdin: JSON list of jobs {"id", "rule_text" | "rule", "listing" (text|None), "bi
 import json, os, sys, tempfile, logging, subprocess, shutil
 
 
+def _alpha_hook():
+    if os.environ.get("JASM_ALPHA"):
+        sys.path.insert(0, os.path.dirname(os.path.dirname(os.path.abspath(__file__))))
+        from vf import alpha
+        alpha.hook_from_env()
+
+
 def main():
+    _alpha_hook()
     logging.disable(logging.CRITICAL)
     jobs = json.load(sys.stdin)
     out = []
@@ -45,7 +53,15 @@ def main():
                 r = MasterOfPuppets(cfg).perform_matching()
                 out.append({"id": j["id"], "outcome": f"returned:{r!r}"})
             except BaseException as e:
-                out.append({"id": j["id"], "outcome": f"raised:{type(e).__name__}"})
+                tb, last = e.__traceback__, None
+                while tb is not None:
+                    last, tb = tb, tb.tb_next
+                mine = last is not None and os.path.abspath(last.tb_frame.f_code.co_filename) == os.path.abspath(__file__)
+                if mine and isinstance(e, (AttributeError, TypeError, NameError)):
+                    # the harness's own call does not fit this tree (renamed entry point, changed signature): nothing learned
+                    out.append({"id": j["id"], "outcome": f"harness:{type(e).__name__}: {e}"})
+                else:
+                    out.append({"id": j["id"], "outcome": f"raised:{type(e).__name__}"})
             finally:
                 os.environ["PATH"] = env_path
     json.dump(out, sys.stdout)
